@@ -16,7 +16,7 @@ from vlib.runner import H
 PID = "C01"
 
 
-def history(E, k, alphabet, obligations, contexts=True, sym_coef=True, with_ref=False):
+def history(E, k, alphabet, obligations, contexts=True, sym_coef=True, with_ref=False, pattern=None):
     env.for_path(E)
     S = State()
     m = base_model(E, sym_coef=sym_coef)
@@ -27,7 +27,10 @@ def history(E, k, alphabet, obligations, contexts=True, sym_coef=True, with_ref=
     names = list(alphabet) + (["enter", "exit"] if contexts else [])
     depth = []
     for step in range(k):
-        name = E.pick("op%d" % step, names)
+        if pattern is not None and pattern[step] is not None:
+            name = pattern[step]
+        else:
+            name = E.pick("op%d" % step, names)
         if name == "enter":
             m.__enter__()
             depth.append((set(S.user_vars), set(S.user_cons), copy.deepcopy(getattr(S, "ref", None))))
@@ -76,6 +79,24 @@ def c01_k3_sub(E):
     history(E, 3, SUB1, _lp, contexts=True, sym_coef=False)
 
 
+def c01_detached(E, more=0):
+    # a reaction removed inside a context, edited while detached, brought back by the exit (then `more` operations)
+    history(E, 4 + more, SUB1, _lp, contexts=False, sym_coef=False,
+            pattern=("enter", "remove_reactions", "detached_edit", "exit") + (None,) * more)
+
+
+def c01_detached_readd(E, more=0):
+    history(E, 3 + more, SUB1, _lp, contexts=False, sym_coef=False,
+            pattern=("remove_reactions", "detached_edit", "add_reactions") + (None,) * more)
+
+
+def c01_detached_more(E):
+    if E.flag("readd"):
+        c01_detached_readd(E, 1)
+    else:
+        c01_detached(E, 1)
+
+
 HARNESSES = [
     H("c01_k1", c01_k1, quick=dict(max_paths=30000, time_budget=60), thorough=dict(max_paths=200000, time_budget=200),
       witness_every=20,
@@ -83,6 +104,14 @@ HARNESSES = [
              "bounds in [-2000,2000]; every one of the %d operations x all its argument shapes, once" % len(OPS)),
     H("c01_k2_sub", c01_k2_sub, tiers=("quick",), quick=dict(max_paths=60000, time_budget=90), witness_every=50,
       bounds="all pairs from the sub-alphabet %s + enter/exit; R1 with symbolic bounds (concrete coefficients)" % SUB1),
+    H("c01_detached", c01_detached, quick=dict(max_paths=30000, time_budget=30), thorough=dict(max_paths=30000, time_budget=60),
+      witness_every=20,
+      bounds="enter, remove_reactions (every variant), edit of the detached reaction (bounds / knock_out / *=-1), exit"),
+    H("c01_detached_readd", c01_detached_readd, quick=dict(max_paths=30000, time_budget=30),
+      thorough=dict(max_paths=30000, time_budget=60), witness_every=20,
+      bounds="remove_reactions, edit of the detached reaction, add_reactions (every variant incl. re-adding it)"),
+    H("c01_detached_more", c01_detached_more, tiers=("thorough",), thorough=dict(max_paths=200000, time_budget=200), witness_every=200,
+      bounds="the two detached-reaction histories followed by one more operation of the sub-alphabet"),
     H("c01_k2_full", c01_k2_full, tiers=("thorough",), thorough=dict(max_paths=2000000, time_budget=450), witness_every=200,
       bounds="all pairs of the full alphabet + enter/exit; R1 with symbolic bounds"),
     H("c01_k3_sub", c01_k3_sub, tiers=("thorough",), thorough=dict(max_paths=2000000, time_budget=400), witness_every=200,
